@@ -12,9 +12,9 @@
 (*   REnd                                                                  *)
 (* The flusher writes a segment in steps (zone metadata, columns, indexes): *)
 (* between FlushWriteBegin and FlushWrite the directory exists but is       *)
-(* incomplete.  As built a reader that scans such a directory may lose the  *)
-(* rows of ALL segments of that read (the segment flow ends early); the     *)
-(* design ("skip-partial-segments") ignores an incomplete directory.        *)
+(* incomplete.  As built a reader that scans such a directory may find its  *)
+(* rows already and may lose the rows of any segment scanned by that read;  *)
+(* the design ("skip-partial-segments") ignores an incomplete directory.    *)
 (* Fix = {"agg-dedup", "passive-content-at-begin", "skip-partial-segments"}:*)
 (* the design;                                                              *)
 (* Fix = {}: as built - selections are de-duplicated by the response       *)
@@ -43,11 +43,11 @@ VARIABLES
 vars == <<nst, mem, passive, queue, job, inflight, dirs, live, nextSeg, rd>>
 Idle == [seg |-> -1, stage |-> "none"]
 RIdle == [pc |-> "idle", before |-> {}, memCopy |-> <<>>, snap |-> {}, todoP |-> {}, segList |-> {},
-          todoS |-> {}, rows |-> <<>>, srows |-> <<>>, poison |-> FALSE, listed |-> FALSE, done |-> 0]
+          todoS |-> {}, rows |-> <<>>, srows |-> <<>>, sawPartial |-> FALSE, listed |-> FALSE, done |-> 0]
 \* the directory of the job's segment exists but is incomplete
 Partial(s) == job.seg = s /\ job.stage = "writing"
-\* what a read finally reports from: the memory rows, and the segment rows unless the segment flow ended early
-FinalRows(r) == r.rows \o (IF r.poison THEN <<>> ELSE r.srows)
+\* what a read finally reports from: the memory rows and the segment rows
+FinalRows(r) == r.rows \o r.srows
 
 SeqSet(s) == {s[i] : i \in DOMAIN s}
 Count(s, e) == Cardinality({i \in DOMAIN s : s[i] = e})
@@ -120,17 +120,18 @@ RPassive(s) ==
   /\ UNCHANGED <<nst, mem, passive, queue, job, inflight, dirs, live, nextSeg>>
 RSegList ==
   /\ rd.pc = "run" /\ ~rd.listed
-  /\ rd' = [rd EXCEPT !.listed = TRUE, !.segList = live \cup inflight, !.todoS = live \cup inflight]
+  /\ rd' = [rd EXCEPT !.listed = TRUE, !.segList = live \cup inflight, !.todoS = live \cup inflight,
+                      !.sawPartial = \E s \in live \cup inflight : Partial(s)]
   /\ UNCHANGED <<nst, mem, passive, queue, job, inflight, dirs, live, nextSeg>>
 RSegment(s) ==
   /\ rd.pc = "run" /\ rd.listed /\ s \in rd.todoS
   /\ \/ rd' = [rd EXCEPT !.todoS = @ \ {s}, !.srows = @ \o (IF s \in DOMAIN dirs THEN dirs[s] ELSE <<>>)]
-     \* as built an incomplete directory is scanned: depending on which files exist and which the read
-     \* needs, its rows are found already, or the segment flow ends early and loses the rows of all segments
+     \* as built an incomplete directory is scanned (its zone index is missing, the fallback lists all its zones):
+     \* its rows may be found already, and the rows of any segment scanned by the same read may be dropped
      \/ /\ Partial(s) /\ "skip-partial-segments" \notin Fix
         /\ rd' = [rd EXCEPT !.todoS = @ \ {s}, !.srows = @ \o passive[s].evs]
-     \/ /\ Partial(s) /\ "skip-partial-segments" \notin Fix
-        /\ rd' = [rd EXCEPT !.todoS = @ \ {s}, !.poison = TRUE]
+     \/ /\ rd.sawPartial /\ "skip-partial-segments" \notin Fix
+        /\ rd' = [rd EXCEPT !.todoS = @ \ {s}]
   /\ UNCHANGED <<nst, mem, passive, queue, job, inflight, dirs, live, nextSeg>>
 REnd ==
   /\ rd.pc = "run" /\ rd.listed /\ rd.todoP = {} /\ rd.todoS = {}
